@@ -88,31 +88,35 @@ Definition process (ev : nat -> hsol -> eres) (q : quota) (st : pstate) : option
   end.
 
 (* ------------------------------------------------------------------ termination criteria *)
-Inductive term := TMaxGen (limit : nat) | TMaxTime.
+(* TOther id: a criterion whose answer is an oracle: MinVariation (id 0), TargetProximity (id 1) *)
+Inductive term := TMaxGen (limit : nat) | TMaxTime | TOther (id : nat).
 
-(* EvolutionConfigBuilder::get_termination restricted to max_generations / max_time *)
-Definition terminations (max_gen : option nat) (max_time : bool) : list term :=
-  match max_gen, max_time with
-  | None, false => [TMaxGen 3000; TMaxTime]
-  | _, _ => (match max_gen with Some l => [TMaxGen l] | None => [] end) ++ (if max_time then [TMaxTime] else [])
+(* EvolutionConfigBuilder::get_termination: max_generations, max_time, min_cv = Some (is_sample, sample size / period), target
+   proximity; the limit of MaxGeneration is the configured max_generations WHATEVER else is configured *)
+Definition terminations (max_gen : option nat) (max_time : bool) (min_cv : option (bool * nat)) (target : bool) : list term :=
+  match max_gen, max_time, min_cv, target with
+  | None, false, None, false => [TMaxGen 3000; TMaxTime]
+  | _, _, _, _ => (match max_gen with Some l => [TMaxGen l] | None => [] end) ++ (if max_time then [TMaxTime] else [])
+                  ++ (match min_cv with Some _ => [TOther 0] | None => [] end) ++ (if target then [TOther 1] else [])
   end.
 
 (* CompositeTermination::is_termination: `any` stops at the first criterion that is true; the wall clock is read once per
    evaluated MaxTime (tp counts those reads) *)
-Fixpoint is_termination (ts : list term) (gen : nat) (tm : nat -> bool) (tp : nat) : bool * nat :=
+Fixpoint is_termination (ts : list term) (gen : nat) (tm : nat -> bool) (ot : nat -> nat -> bool) (tp : nat) : bool * nat :=
   match ts with
   | [] => (false, tp)
-  | TMaxGen l :: r => if l <=? gen then (true, tp) else is_termination r gen tm tp
-  | TMaxTime :: r => if tm tp then (true, S tp) else is_termination r gen tm (S tp)
+  | TMaxGen l :: r => if l <=? gen then (true, tp) else is_termination r gen tm ot tp
+  | TMaxTime :: r => if tm tp then (true, S tp) else is_termination r gen tm ot (S tp)
+  | TOther i :: r => if ot i tp then (true, S tp) else is_termination r gen tm ot (S tp)
   end.
 
 (* `termination.estimate(ctx) > initial.quota` (0.05): MaxGeneration gives (gen / limit).min(1) (limit 0: NaN/inf -> 1),
    MaxTime's share is the oracle `iq` *)
 Definition est_exceeds (ts : list term) (gen : nat) (iq : bool) : bool :=
-  existsb (fun t => match t with TMaxGen l => (l =? 0) || (l <? 20 * gen) | TMaxTime => iq end) ts.
+  existsb (fun t => match t with TMaxGen l => (l =? 0) || (l <? 20 * gen) | TMaxTime => iq | TOther _ => false end) ts.
 
 Fixpoint gen_limit (ts : list term) : option nat :=
-  match ts with [] => None | TMaxGen l :: _ => Some l | TMaxTime :: r => gen_limit r end.
+  match ts with [] => None | TMaxGen l :: _ => Some l | _ :: r => gen_limit r end.
 
 (* ------------------------------------------------------------------ telemetry *)
 Record tele := mkT { t_next : option nat; t_stat_gen : nat; t_metric_gens : nat; t_evolution : list nat }.
@@ -135,6 +139,8 @@ Record econfig := mkC {
   c_reg : nat;                (* actors of the fleet = routes of a fresh registry *)
   c_max_gen : option nat;
   c_max_time : bool;
+  c_min_cv : option (bool * nat);   (* ("sample" ?, sample size / period) *)
+  c_target : bool;                  (* target proximity configured *)
   c_init_ops : nat;           (* number of initial operators *)
   c_init_size : nat;          (* initial.max_size *)
   c_fuel : nat                (* bound on loop iterations used ONLY when no generation limit is configured *)
@@ -142,6 +148,7 @@ Record econfig := mkC {
 
 Record oracles := mkO {
   o_time : nat -> bool;                              (* MaxTime::is_termination at its t-th evaluation *)
+  o_other : nat -> nat -> bool;                      (* MinVariation (0) / TargetProximity (1) at the t-th oracle evaluation *)
   o_init_quota : nat -> bool;                        (* MaxTime's estimate > initial.quota at the idx-th initial check *)
   o_init_ev : nat -> nat -> hsol -> eres;            (* evaluator results inside the idx-th initial operator *)
   o_parents : nat -> list hsol -> list nat;          (* selected(): indices into the population, generation g *)
@@ -153,14 +160,14 @@ Record oracles := mkO {
 
 Record estate := mkS { s_pop : list hsol; s_tele : tele; s_polls : nat; s_tpolls : nat }.
 
-Definition cfg_terms (cfg : econfig) : list term := terminations (c_max_gen cfg) (c_max_time cfg).
+Definition cfg_terms (cfg : econfig) : list term := terminations (c_max_gen cfg) (c_max_time cfg) (c_min_cv cfg) (c_target cfg).
 
 Fixpoint initial (n idx : nat) (cfg : econfig) (W : oracles) (q : quota) (st : estate) : option estate :=
   match n with
   | O => Some st
   | S n' =>
     let gen := t_stat_gen (s_tele st) in
-    let '(is_overall_termination, tp) := is_termination (cfg_terms cfg) gen (o_time W) (s_tpolls st) in
+    let '(is_overall_termination, tp) := is_termination (cfg_terms cfg) gen (o_time W) (o_other W) (s_tpolls st) in
     let is_initial_quota_reached := est_exceeds (cfg_terms cfg) gen (o_init_quota W idx) in
     if is_initial_quota_reached || is_overall_termination
     then Some (mkS (s_pop st) (s_tele st) (s_polls st) tp)
@@ -201,7 +208,7 @@ Definition generation (cfg : econfig) (W : oracles) (q : quota) (st : estate) : 
   end.
 
 Fixpoint iloop (fuel : nat) (cfg : econfig) (W : oracles) (q : quota) (st : estate) : option estate :=
-  let '(is_terminated, tp) := is_termination (cfg_terms cfg) (t_stat_gen (s_tele st)) (o_time W) (s_tpolls st) in
+  let '(is_terminated, tp) := is_termination (cfg_terms cfg) (t_stat_gen (s_tele st)) (o_time W) (o_other W) (s_tpolls st) in
   let is_quota_reached := q (s_polls st) in
   let st1 := mkS (s_pop st) (s_tele st) (S (s_polls st)) tp in
   if is_terminated || is_quota_reached then Some st1
@@ -246,15 +253,18 @@ Fixpoint decompose_inner (repeat : nat) (q : quota) (polls : nat) (inner : nat -
 (* ------------------------------------------------------------------ correspondence entry points *)
 (* loop-level observables of one solve with the deterministic layout: the plan is abstracted to [] (no insertion-loop poll),
    the polls observed inside the initial phase / inside generation g of the UNINTERRUPTED run are fed through o_skip.
+   (the other criteria of the configuration never fire in this evaluation: the prediction is exact when they cannot fire and an
+   upper bound on the generations otherwise)
    result: (code, generations run, metrics.generations, |metrics.evolution|, polls) with code 0 = solution, 1 = "cannot find any
    solution", 2 = no initial operator, 3 = fuel *)
 Definition skip_oracles (init_polls : nat) (gen_polls : list nat) : oracles :=
-  mkO (fun _ => false) (fun _ => false) (fun _ _ _ => EFailure None false false)
+  mkO (fun _ => false) (fun _ _ => false) (fun _ => false) (fun _ _ _ => EFailure None false false)
       (fun _ _ => []) (fun _ _ _ => []) (fun _ _ _ _ => EFailure None false false)
       (fun g _ => nth g gen_polls 0) (fun _ => 0).
 
-Definition run_evolve (max_gen : nat) (init_polls : nat) (gen_polls : list nat) (k : option nat) : nat * nat * nat * nat * nat :=
-  let cfg := mkC [] 1 (Some max_gen) false 4 4 0 in
+Definition run_evolve_cfg (max_gen : nat) (max_time : bool) (min_cv : option (bool * nat)) (target : bool)
+           (init_polls : nat) (gen_polls : list nat) (k : option nat) : nat * nat * nat * nat * nat :=
+  let cfg := mkC [] 1 (Some max_gen) max_time min_cv target 4 4 0 in
   let q : quota := fun n => counting_quota k (n + init_polls) in
   match evolve cfg (skip_oracles init_polls gen_polls) q with
   | EOk _ st => (0, gens_run (s_tele st), t_metric_gens (s_tele st), length (t_evolution (s_tele st)), s_polls st + init_polls)
@@ -262,6 +272,8 @@ Definition run_evolve (max_gen : nat) (init_polls : nat) (gen_polls : list nat) 
   | EErr ErrNoInitialMethods => (2, 0, 0, 0, 0)
   | EFuel => (3, 0, 0, 0, 0)
   end.
+
+Definition run_evolve (max_gen : nat) := run_evolve_cfg max_gen false None false.
 
 (* one run of the insertion loop on ids 0..n-1 where every evaluation succeeds into route 0: (inserted, unassigned, polls) *)
 Definition run_process (njobs : nat) (k : option nat) : nat * nat * nat :=
